@@ -175,7 +175,7 @@ pub fn def(prop: &str) -> Option<PropDef> {
         "C10" => PropDef {
             id: "C10",
             level: "exploration",
-            rule: "One evaluation = one simulated editor session against the real harper-ls (every notification and command except HarperOpen; dictionary and statistics paths set, unset and changed during the session) in which every libc entry point that leaves the process is a seam owned by the harness: socket/connect/bind/listen/sendto/sendmsg/getaddrinfo are recorded and refused, open/openat/creat/mkdir(at)/rename(at,at2)/unlink(at)/rmdir/link(at)/symlink(at)/truncate/chmod/utimensat are recorded and forwarded. Oracle at every quiescent point and at the end: no network call; every path created, opened for writing, renamed to or removed lies in the configured user-dictionary / file-dictionary / statistics set (or is a directory leading to one); a snapshot of the whole scratch world shows no other file and no modified document. Non-trivial: the server wrote at least one file during the run. Distinct: by decision-kind sequence hash (sequential runs: plus script).",
+            rule: "One evaluation = one simulated editor session against the real harper-ls (every notification and command except HarperOpen; dictionary and statistics paths set, unset and changed during the session) in which every libc entry point that leaves the process is a seam owned by the harness: socket/connect/bind/listen/sendto/sendmsg/getaddrinfo and posix_spawn(p)/execve/execvp are recorded and refused, open/openat/creat/mkdir(at)/rename(at,at2)/unlink(at)/rmdir/link(at)/symlink(at)/truncate/ftruncate/chmod/fchmod/utimensat/futimens are recorded and forwarded. Oracle at every quiescent point and at the end: no network call and no program started (the open-URL command, the one place where Harper starts a program, is excluded by the property and not generated); every path created, opened for writing, renamed to or removed lies in the configured user-dictionary / file-dictionary / statistics set (or is a directory leading to one); a snapshot of the whole scratch world shows no other file and no modified document. Non-trivial: the server wrote at least one file during the run. Distinct: by decision-kind sequence hash (sequential runs: plus script).",
             assumptions: vec![
                 "code reaches the outside only through libc (no raw syscalls in dependencies); the thorough tier cross-checks a sample against strace",
                 "main.rs (the loopback listener) and the explicit HarperOpen command are excluded, as the property states",
